@@ -446,8 +446,24 @@ def main(argv=None):
                     tried.append((alt, ra))
                     if ra["status"] == "pass":
                         break
-                pick = next((x for x in tried if x[1]["status"] == "pass"), None) or \
-                    next((x for x in tried if x[1].get("failures")), None) or tried[0]
+                # a later variant may only take over from an earlier one that was REFUTED on its invariant obligations alone (the unit
+                # lists them): an earlier variant that is undecided, or that fails anything else, is not overruled by a weaker pass
+                inv_obls = tuple(getattr(importlib.import_module("units." + unit_name), "INVARIANT_OBLIGATIONS", ()))
+                def _only_invariant_failures(x):
+                    return x["status"] == "violation" and x.get("failures") and all(any(o in f["obligation"] for o in inv_obls) for f in x["failures"])
+                pick = None
+                for idx, (alt, ra) in enumerate(tried):
+                    if ra["status"] == "pass":
+                        if all(_only_invariant_failures(e[1]) for e in tried[:idx]):
+                            pick = (alt, ra)
+                        else:
+                            bad = next(e for e in tried[:idx] if not _only_invariant_failures(e[1]))
+                            pick = (bad[0], bad[1])
+                            if bad[1]["status"] != "violation":
+                                bad[1]["undecided"] = list(bad[1].get("undecided", [])) + ["a weaker variant %s passes, but it does not carry this variant's obligations" % (alt,)]
+                        break
+                if pick is None:
+                    pick = next((x for x in tried if x[1].get("failures")), None) or tried[0]
                 r = pick[1]
                 variant = dict(pick[0])
                 r["alternatives_tried"] = [{"variant": a, "status": x["status"], "failed": [f["obligation"] for f in x.get("failures", [])],
